@@ -233,7 +233,7 @@ type accInfo struct {
 
 func accName(acc string, idx, sig int) string {
 	switch acc {
-	case "gcall", "tcall", "gxcall":
+	case "gcall", "tcall", "rtcall", "gxcall":
 		return fmt.Sprintf("%s%d_%d", acc, idx, sig)
 	case "load8", "store8", "load32", "store32", "msize", "mgrow":
 		return acc
@@ -274,7 +274,7 @@ func (s *ModSpec) accessors() []accInfo {
 		if e == wasmenc.FuncRef {
 			out = append(out, accInfo{"tsetf", i, 0}, accInfo{"tgrowf", i, 0})
 			for sg := range sigs {
-				out = append(out, accInfo{"tcall", i, sg})
+				out = append(out, accInfo{"tcall", i, sg}, accInfo{"rtcall", i, sg})
 			}
 		} else {
 			out = append(out, accInfo{"tget", i, 0}, accInfo{"tsetx", i, 0}, accInfo{"tgrowx", i, 0})
@@ -292,7 +292,7 @@ func (s *ModSpec) accessors() []accInfo {
 		}
 	}
 	for i := range v.fsig {
-		out = append(out, accInfo{"call", i, 0})
+		out = append(out, accInfo{"call", i, 0}, accInfo{"rcall", i, 0})
 		if v.hasMem {
 			out = append(out, accInfo{"xcall", i, 0})
 		}
@@ -547,6 +547,15 @@ func (s *ModSpec) build(nonce string) []byte {
 			p, r = []byte{I32}, sigs[a.Sig].R
 			pushDummy(b, a.Sig)
 			b.LocalGet(0).CallIndirect(m.AddType(sigs[a.Sig].P, sigs[a.Sig].R), i)
+		case "rtcall": // the same through return_call_indirect (tail call)
+			p, r = []byte{I32}, sigs[a.Sig].R
+			pushDummy(b, a.Sig)
+			b.LocalGet(0).ReturnCallIndirect(m.AddType(sigs[a.Sig].P, sigs[a.Sig].R), i)
+		case "rcall": // direct tail call of a (possibly imported) function
+			sg := v.fsig[a.Idx]
+			r = sigs[sg].R
+			pushDummy(b, sg)
+			b.ReturnCall(i)
 		case "load8":
 			p, r = []byte{I32}, []byte{I32}
 			b.LocalGet(0).Mem(wasmenc.OpI32Load8U, 0, 0)
